@@ -306,9 +306,127 @@ Lemma ku_proc s t e s' g : INV s -> R_ku s t -> ev_g e = Some g -> gproc s = Som
   exists t', ku_step t e = Some t' /\ R_ku s' t'.
 Proof.
   intros HI HR Hg Hr H. unfold step_proc, proc_dispatch, die_p, guard in H.
-  inv_step H; inv_helpers; injection H as <-; subst; cbn [ev_g] in Hg; try injection Hg as ->.
+  pose proof HR as HR'. unfold R_ku in HR'.
+  inv_step H; inv_helpers; injection H as <-; subst; cbv beta iota in HR'; cbn [ev_g] in Hg; try injection Hg as ->.
   all: try (cbn [ku_step]; eexists; split; [reflexivity|]; ku_same_t HR).
   all: try (cbn [ku_step]; eexists; split; [reflexivity|]; destruct HR as [HR1 HR2]; split; bcsimpl; cbn [ku_last ku_deq];
             try exact I; try exact HR2; fail).
-  all: match goal with |- ?G => idtac G end.
-Abort.
+  - (* Setup *) cbn [ku_step]. eexists; split; [reflexivity|]. destruct HR as [HR1 HR2].
+    destruct fresh; split; bcsimpl; try exact I; exact HR2.
+  - (* All *) cbn [ku_step]. eexists; split; [reflexivity|]. destruct HR as [HR1 HR2].
+    destruct l; split; bcsimpl; try exact I; exact HR2.
+  - (* Resend ok *) cbn [ku_step]. eexists; split; [reflexivity|]. destruct HR as [HR1 HR2].
+    unfold take_deq_if_any, take_deq. destruct (0 <? tdeq s); destruct l; split; bcsimpl; try exact I; exact HR2.
+  - cbn [ku_step]. eexists; split; [reflexivity|]. destruct HR as [HR1 HR2].
+    unfold take_deq_if_any, take_deq. destruct (0 <? tdeq s); split; bcsimpl; try exact I; exact HR2.
+  - (* Rx Puback *) cbn [ku_step]. eexists; split; [reflexivity|]. destruct HR as [HR1 HR2].
+    split; bcsimpl; cbn [ku_last ku_deq]; [|exact HR2]. exists g. split; [exact Hr|left; apply aget_aput_same].
+  - (* Rx Pubrec *) cbn [ku_step]. eexists; split; [reflexivity|]. destruct HR as [HR1 HR2].
+    split; bcsimpl; cbn [ku_last ku_deq]; [|exact HR2]. exists g. split; [exact Hr|apply aget_aput_same].
+  - (* Rx Pubcomp *) cbn [ku_step]. eexists; split; [reflexivity|]. destruct HR as [HR1 HR2].
+    split; bcsimpl; cbn [ku_last ku_deq]; [|exact HR2]. exists g. split; [exact Hr|right; apply aget_aput_same].
+  - (* Delete ok *)
+    destruct HR' as [HR1 HR2]. destruct HR1 as (g' & G & A). rewrite Hr in G. injection G as <-.
+    match goal with Hq : (_ =? _) = true |- _ => apply N.eqb_eq in Hq; subst end.
+    cbn [ku_step]. destruct A as [A|A]; rewrite A, N.eqb_refl; (eexists; split; [reflexivity|]);
+      split; bcsimpl; try exact I; exact HR2.
+  - (* Delete fail *)
+    destruct HR' as [HR1 HR2]. destruct HR1 as (g' & G & A). rewrite Hr in G. injection G as <-.
+    match goal with Hq : (_ =? _) = true |- _ => apply N.eqb_eq in Hq; subst end.
+    cbn [ku_step]. destruct A as [A|A]; rewrite A, N.eqb_refl; (eexists; split; [reflexivity|]);
+      split; bcsimpl; try exact I; exact HR2.
+  - (* RecSave ok *)
+    destruct HR' as [HR1 HR2]. destruct HR1 as (g' & G & A). rewrite Hr in G. injection G as <-.
+    match goal with Hq : (_ =? _) = true |- _ => apply N.eqb_eq in Hq; subst end.
+    cbn [ku_step]. rewrite A, N.eqb_refl. eexists; split; [reflexivity|]. split; bcsimpl; try exact I; exact HR2.
+  - destruct HR' as [HR1 HR2]. destruct HR1 as (g' & G & A). rewrite Hr in G. injection G as <-.
+    match goal with Hq : (_ =? _) = true |- _ => apply N.eqb_eq in Hq; subst end.
+    cbn [ku_step]. rewrite A, N.eqb_refl. eexists; split; [reflexivity|]. split; bcsimpl; try exact I; exact HR2.
+Qed.
+
+Lemma ku_deq' s t e s' g : INV s -> R_ku s t -> ev_g e = Some g -> gdeq s = Some g -> step_deq s e = Some s' ->
+  exists t', ku_step t e = Some t' /\ R_ku s' t'.
+Proof.
+  intros HI HR Hg Hr H. pose proof (I_shape _ HI) as Hsh. unfold step_deq in H.
+  pose proof HR as HR'. unfold R_ku in HR'.
+  inv_step H; inv_helpers; injection H as <-; subst; cbv beta iota in HR';
+    cbn [dp_shape] in Hsh; cbn [ev_g] in Hg; try injection Hg as ->.
+  all: try (cbn [ku_step]; eexists; split; [reflexivity|]; destruct HR as [HR1 HR2]; split; bcsimpl; cbn [ku_last ku_deq];
+            try exact I; try exact HR1; try exact HR2; fail).
+  - (* DeqRet qos 0 *) cbn [ku_step]. eexists; split; [reflexivity|]. destruct HR as [HR1 HR2].
+    destruct backack; split; bcsimpl; cbn [ku_last ku_deq]; try exact I; exact HR1.
+  - (* DeqRet qos>0 *) cbn [ku_step]. eexists; split; [reflexivity|]. destruct HR as [HR1 HR2].
+    split; bcsimpl; cbn [ku_last ku_deq]; [exact HR1|]. exists g. split; [exact Hr|].
+    cbn [nmem existsb]. rewrite N.eqb_refl. reflexivity.
+  - (* NextId *) cbn [ku_step]. eexists; split; [reflexivity|]. destruct HR as [HR1 _]. destruct HR' as [_ HR2].
+    split; bcsimpl; [exact HR1|exact HR2].
+  - (* Save ok *)
+    destruct Hsh as (m & id & -> & Hq). destruct HR as [HR1 _]. destruct HR' as [_ (g' & G & A)].
+    rewrite Hr in G. injection G as <-.
+    match goal with Hx : packet_eqb _ _ = true |- _ => apply packet_eqb_publish_l in Hx; subst end.
+    cbn [ku_step]. rewrite A, Hq. cbn [andb negb]. eexists; split; [reflexivity|].
+    destruct ba; split; bcsimpl; try exact I; exact HR1.
+  - (* Save fail *)
+    destruct Hsh as (m & id & -> & Hq). destruct HR as [HR1 _]. destruct HR' as [_ (g' & G & A)].
+    rewrite Hr in G. injection G as <-.
+    match goal with Hx : packet_eqb _ _ = true |- _ => apply packet_eqb_publish_l in Hx; subst end.
+    cbn [ku_step]. rewrite A, Hq. cbn [andb negb]. eexists; split; [reflexivity|].
+    split; bcsimpl; try exact I; exact HR1.
+  - (* Send ok *) destruct Hsh as (m & id & ->). destruct HR as [HR1 _].
+    cbn [ku_step]. eexists; split; [reflexivity|]. destruct (m_qos m =? 0); split; bcsimpl; try exact I; exact HR1.
+Qed.
+
+Lemma ku_same s s' t : same_pd s s' -> R_ku s t -> R_ku s' t.
+Proof.
+  intros Hs. apply ku_frame; [apply (sp_pp _ _ Hs)|apply (sp_dp _ _ Hs)|apply (sp_gproc _ _ Hs)|apply (sp_gdeq _ _ Hs)
+                             |reflexivity|intros ? Hx; exact Hx].
+Qed.
+
+Lemma ku_frozen s s' t : frozen s s' -> R_ku s' t.
+Proof. intros Hf. unfold R_ku. rewrite (fz_pp _ _ Hf), (fz_dp _ _ Hf). split; [exact I|destruct (dp s); exact I]. Qed.
+
+Lemma ku_learned s s1 t : INV s -> learned s s1 -> R_ku s t -> R_ku s1 t.
+Proof.
+  intros HI Hl [H1 H2]. destruct (learned_role_kept _ _ Hl) as [Kp Kd].
+  assert (Ep : pp s1 = pp s /\ dp s1 = dp s).
+  { destruct Hl as [->|(g & _ & [[_ ->]|[[_ ->]|[[_ ->]|[_ ->]]]])]; split; reflexivity. }
+  destruct Ep as [Ep Ed]. unfold R_ku. rewrite Ep, Ed. split.
+  - destruct (pp s); try exact I; destruct H1 as (g & G & A); exists g; (split; [apply Kp; exact G|exact A]).
+  - destruct (dp s); try exact I; destruct H2 as (g & G & A); exists g; (split; [apply Kd; exact G|exact A]).
+Qed.
+
+Lemma ku_step_clo t e : clo_event e -> ku_step t e = Some t.
+Proof. destruct e; try contradiction; try reflexivity. destruct d; [reflexivity|contradiction]. Qed.
+
+Lemma ku_step_cl t e : cl_event e -> ku_step t e = Some t.
+Proof. destruct e; try contradiction; reflexivity. Qed.
+
+Lemma ku_step_ok s t e s' : INV s -> R_ku s t -> step s e = Some s' ->
+  exists t', ku_step t e = Some t' /\ R_ku s' t'.
+Proof.
+  intros HI HR H. apply step_inv in H.
+  destruct H as [He Ho ->|He Ho ->|He Hq ->|Hc|g s1 Hg Hl Hr Ho Hp|g s1 Hg Hl Hr Ho Hnp Hd
+                |g s1 Hg Hl Hr Ho Hnp Hnd Ha|g s1 Hg Hl Hr Ho Hc|He Hc|g He Ho ->].
+  - subst e. eexists. split; [reflexivity|]. unfold R_ku. bcsimpl. split; exact I.
+  - subst e. exists t. split; [reflexivity|exact HR].
+  - subst e. exists t. split; [reflexivity|exact HR].
+  - apply step_clo_sum in Hc as (He & Hs & _). exists t. split; [apply ku_step_clo; exact He|eapply ku_same; eassumption].
+  - eapply ku_proc; [eapply INV_learned; eassumption|exact (ku_learned _ _ _ HI Hl HR)|exact Hg|exact Hr|exact Hp].
+  - eapply ku_deq'; [eapply INV_learned; eassumption|exact (ku_learned _ _ _ HI Hl HR)|exact Hg|exact Hr|exact Hd].
+  - pose proof (step_ack_sum _ _ _ Ha) as (Hs & _ & He).
+    exists t. split; [|eapply ku_same; [exact Hs|exact (ku_learned _ _ _ HI Hl HR)]].
+    destruct e; try contradiction; reflexivity.
+  - apply step_cleanup_sum in Hc as (He & [(Hs & _)|Hf]); exists t; (split; [apply ku_step_cl; exact He|]).
+    + eapply ku_same; [exact Hs|exact (ku_learned _ _ _ HI Hl HR)].
+    + eapply ku_frozen; exact Hf.
+  - apply step_cleanup_sum in Hc as (He' & [(Hs & _)|Hf]); exists t; (split; [apply ku_step_cl; exact He'|]).
+    + eapply ku_same; eassumption.
+    + eapply ku_frozen; exact Hf.
+  - subst e. exists t. split; [reflexivity|]. ku_same_t HR.
+Qed.
+
+Theorem c08_kept_until_acked_holds : forall es s, bc_run es = Some s -> c08_kept_until_acked es = true.
+Proof.
+  apply (scan_sound_inv ku_step INV R_ku INV_init INV_step ku_step_ok).
+  unfold R_ku. cbn. split; exact I.
+Qed.
